@@ -185,6 +185,16 @@ def generate(rng: random.Random, tier: str) -> dict:
     n_params = rng.choice([1, 2, 2, 3])
     params = gen.gen_params(rng, n_params, dtype, max_numel=120)
     groups = gen.gen_groups(rng, n_params, config, max_groups=2)
+    if rng.random() < 0.25:
+        # two param groups that can share one compiled graph: same block shapes and dtypes, hyper-parameters equal except
+        # (possibly) the learning rate
+        n_params = rng.choice([2, 4])
+        half = n_params // 2
+        params = params[:half] if len(params) >= half else gen.gen_params(rng, half, dtype, max_numel=120)
+        params = params + [dict(p, init_seed=rng.randrange(1 << 30)) for p in params]
+        groups = [{"params": list(range(half)), "overrides": {}}, {"params": list(range(half, n_params)), "overrides": ({"lr": gen.f32r(rng, 1e-3, 0.5)} if rng.random() < 0.5 else {})}]
+        if rng.random() < 0.5:
+            config["weight_decay"] = rng.choice([1e-2, 0.1])
     n_events = rng.choice([3, 4, 6, 8, 10] + ([16] if tier == "thorough" else []))
     style = gen.gen_presence_style(rng, n_params)
     style["style"] = rng.choice(["all", "sticky", "adversarial", "random"])
